@@ -169,4 +169,6 @@ def _adjust_modulus_offset(
             results.append(res)
             prog.increment()
 
-    return sorted(results, key=lambda _: _[0])
+    # Break ties using the option names so that the order in which the worker
+    # processes happen to finish cannot affect which result is listed first.
+    return sorted(results, key=lambda _: (_[0], _[2], _[3], _[4]))
